@@ -14,6 +14,7 @@ import (
 	"sync/atomic"
 	"testing"
 	"time"
+	"unsafe"
 
 	hio "github.com/hprose/hprose-golang/v3/io"
 	"github.com/hprose/hprose-golang/v3/rpc/core"
@@ -45,7 +46,7 @@ type result struct {
 func TestCheck(t *testing.T) {
 	r := h.Start(t, "C14")
 	defer r.Finish()
-	r.Meta("rule", "(A) first use: per process 300 named struct types (75 groups of 4 mutually nested types) that nothing has touched; per group 2/8/32 goroutines are released by a barrier to Marshal (simple and reference mode), Encode, or Unmarshal (stream written by the independent writer) values of the group's types simultaneously, so that nested types are first-used through different outer types at once; every result is compared with the independent reader/writer and with the single-goroutine result computed afterwards. (B) warm stress: 16 goroutines round-trip the shared C01 corpus concurrently. (C) pool hygiene: all sequences of length <= 4 (exhaustive) over 12 kinds of use of pooled encoders/decoders and RPC codecs (simple ok, reference with back-references, failing input, decoder options, reader mode, codec with options ...), each compared with the same use through a freshly allocated coder. (D) aliasing: decoded values are printed, the input buffer is overwritten and 200 unrelated pooled operations are run, then printed again. The race detector observes all of it (race pass). distinct_nontrivial = distinct (group, goroutine role) first-use windows whose call intervals overlapped another goroutine's + distinct pool sequences + aliasing cases Added: pool users that set no decoder option at all (Unmarshal, UnmarshalFromReader, Formatter{} in reference mode) and one that sets every option to its non-default value, with dynamic result types in the rendering.")
+	r.Meta("rule", "(A) first use: per process 300 named struct types (75 groups of 4 mutually nested types) that nothing has touched; per group 2/8/32 goroutines are released by a barrier to Marshal (simple and reference mode), Encode, or Unmarshal (stream written by the independent writer) values of the group's types simultaneously, so that nested types are first-used through different outer types at once; every result is compared with the independent reader/writer and with the single-goroutine result computed afterwards. (B) warm stress: 16 goroutines round-trip the shared C01 corpus concurrently. (C) pool hygiene: all sequences of length <= 4 (exhaustive) over 12 kinds of use of pooled encoders/decoders and RPC codecs (simple ok, reference with back-references, failing input, decoder options, reader mode, codec with options ...), each compared with the same use through a freshly allocated coder. (D) aliasing: decoded values are printed, the input buffer is overwritten and 200 unrelated pooled operations are run, then printed again. The race detector observes all of it (race pass). distinct_nontrivial = distinct (group, goroutine role) first-use windows whose call intervals overlapped another goroutine's + distinct pool sequences + aliasing cases Added: pool users that set no decoder option at all (Unmarshal, UnmarshalFromReader, Formatter{} in reference mode) and one that sets every option to its non-default value, with dynamic result types in the rendering; a memory monitor over every decoded value (no byte slice up to its capacity and no string lies inside the input buffer; appending within capacity to decoded byte slices leaves the input unchanged) with empty and one-element values in the corpus; responses handed out by Service.Handle and arguments kept by a function stay unchanged over 60 later requests and an overwritten request buffer; six encoders and six decoders held at once are distinct objects after succeeding, failing and panicking uses.")
 	r.Meta("assumptions", []string{
 		"the first-use window can only be sampled, not forced: the evidence reports for how many fresh types the first calls of at least two goroutines overlapped in time (monotonic timestamps around each first call)",
 		"byte comparisons avoid multi-entry maps (iteration order); those are compared by decoding",
@@ -633,6 +634,13 @@ func phaseAlias(r *h.Run) {
 		{"bytes->string", []byte("bytes into string"), func() interface{} { return new(string) }},
 		{"[16]byte", [16]byte{1, 2, 3, 4, 5, 6, 7, 8, 9, 10, 11, 12, 13, 14, 15, 16}, func() interface{} { return new([16]byte) }},
 		{"refs", []interface{}{"repeated string", "repeated string", []byte("rb"), []byte("rb")}, func() interface{} { return new([]interface{}) }},
+		{"empty-bytes", []byte{}, func() interface{} { return new([]byte) }},
+		{"iface-empty-bytes", []byte{}, func() interface{} { return new(interface{}) }},
+		{"[][]byte-with-empties", [][]byte{{}, []byte("abc"), {}, []byte(long)}, func() interface{} { return new([][]byte) }},
+		{"map-with-empties", map[string]interface{}{"e": []byte{}, "s": "", "one": "1", "l": []interface{}{[]byte{}, ""}}, func() interface{} { return new(map[string]interface{}) }},
+		{"*struct-with-empty-bytes", &gentypes.Libs{Bs: []byte{}, Any: []byte{}}, func() interface{} { return new(*gentypes.Libs) }},
+		{"empty-string->bytes", "", func() interface{} { return new([]byte) }},
+		{"one-char-string->bytes", "x", func() interface{} { return new([]byte) }},
 	}
 	for _, dc := range cases {
 		for _, simple := range []bool{true, false} {
@@ -666,6 +674,24 @@ func phaseAlias(r *h.Run) {
 						return
 					}
 					before := fmt.Sprintf("%#v", reflect.ValueOf(dst).Elem().Interface())
+					// memory monitor: no byte slice (up to its capacity: an append writes there) and
+					// no string of the decoded value lies inside the input buffer
+					if entry != 2 {
+						lo := uintptr(unsafe.Pointer(unsafe.SliceData(in)))
+						hi := lo + uintptr(cap(in))
+						memRanges(reflect.ValueOf(dst), map[uintptr]bool{}, func(p uintptr, n int, what string) {
+							r.Eval(1)
+							if n > 0 && p < hi && p+uintptr(n) > lo {
+								c.Violation("decoded-value-shares-memory-with-input:"+dc.name, fmt.Sprintf("decoded %s: a %s occupies [%#x,%#x) inside the input buffer [%#x,%#x) (entry %d, simple=%v); writing through it (an append within capacity) changes the input and later readers of it", dc.name, what, p, p+uintptr(n), lo, hi, entry, simple), map[string]interface{}{"case": dc.name, "entry": entry, "simple": simple})
+							}
+						})
+						// and the behavioural form: appending to every decoded byte slice leaves the input as it was
+						appendAll(reflect.ValueOf(dst), map[uintptr]bool{})
+						if !bytes.Equal(in, data) {
+							c.Violation("append-to-decoded-bytes-changes-input:"+dc.name, fmt.Sprintf("after appending to the decoded byte slices the input buffer changed (entry %d, simple=%v)\nbefore=%q\nafter =%q", entry, simple, clip(data, 200), clip(in, 200)), map[string]interface{}{"case": dc.name, "entry": entry, "simple": simple})
+						}
+						before = fmt.Sprintf("%#v", reflect.ValueOf(dst).Elem().Interface())
+					}
 					// scribble over the input and churn the pools
 					for i := range in {
 						in[i] = 0xAA
@@ -699,6 +725,206 @@ func phaseAlias(r *h.Run) {
 		}
 		r.Distinct("alias|marshal-result")
 	})
+	// a response handed out by Service.Handle belongs to the caller: later requests (which reuse
+	// the pooled encoder) leave it as it was; arguments a function keeps stay as they were decoded
+	// when the request buffer is overwritten and further requests are decoded
+	for _, simple := range []bool{false, true} {
+		simple := simple
+		r.Case(fmt.Sprintf("alias/service-response-and-arguments/simple=%v", simple), func(c *h.Case) {
+			svc := core.NewService()
+			svc.Codec = core.NewServiceCodec(core.WithSimple(simple))
+			var kept []interface{}
+			svc.AddFunction(func(s string, b []byte, l []string) string {
+				kept = append(kept, s, b, l)
+				return "answer to " + s
+			}, "keep")
+			request := func(k int) []byte {
+				enc := new(hio.Encoder).Simple(simple)
+				enc.WriteTag(hio.TagCall)
+				enc.Encode("keep")
+				enc.Encode([]interface{}{fmt.Sprintf("argument string %d %s", k, strings.Repeat("s", k%40)), []byte(fmt.Sprintf("argument bytes %d", k)), []string{"x", fmt.Sprintf("element %d", k), "x"}})
+				enc.WriteTag(hio.TagEnd)
+				return append([]byte(nil), enc.Bytes()...)
+			}
+			handle := func(req []byte) []byte {
+				resp, err := svc.Handle(core.WithContext(context.Background(), core.NewServiceContext(svc)), req)
+				if err != nil {
+					c.Violation("service-handle-failed", err.Error(), nil)
+				}
+				return resp
+			}
+			type held struct {
+				resp []byte
+				snap string
+			}
+			var hs []held
+			var argSnaps []string
+			for k := 0; k < 60; k++ {
+				req := request(k)
+				resp := handle(req)
+				hs = append(hs, held{resp, string(resp)})
+				argSnaps = append(argSnaps, fmt.Sprintf("%#v", kept[len(kept)-3:]))
+				for i := range req {
+					req[i] = 0xAA
+				}
+				r.Eval(1)
+			}
+			for k, x := range hs {
+				if string(x.resp) != x.snap {
+					c.Violation("service-response-aliases-pool", fmt.Sprintf("the response to request %d changed after later requests were handled: %q -> %q", k, x.snap, x.resp), map[string]interface{}{"simple": simple})
+					break
+				}
+			}
+			for k := range argSnaps {
+				if now := fmt.Sprintf("%#v", kept[3*k:3*k+3]); now != argSnaps[k] {
+					c.Violation("service-arguments-alias-request", fmt.Sprintf("arguments kept by the function of request %d changed after the request buffer was overwritten and later requests decoded:\nbefore=%s\nafter =%s", k, clips(argSnaps[k], 300), clips(now, 300)), map[string]interface{}{"simple": simple})
+					break
+				}
+			}
+			if !strings.Contains(hs[0].snap, "answer to argument string 0") {
+				c.Violation("service-handle-failed", fmt.Sprintf("unexpected response %q", hs[0].snap), nil)
+			}
+			r.Distinct(fmt.Sprintf("alias|service|%v", simple))
+		})
+	}
+	// coders held at the same time are different objects, also after uses that failed
+	r.Case("pool/held-coders-are-distinct", func(c *h.Case) {
+		runtime.LockOSThread()
+		defer runtime.UnlockOSThread()
+		preludes := []struct {
+			name string
+			run  func()
+		}{
+			{"nothing", func() {}},
+			{"marshal-ok", func() { hio.Marshal("fine") }},
+			{"marshal-fails-chan", func() { hio.Marshal(make(chan int)) }},
+			{"marshal-fails-nested-func", func() { hio.Marshal([]interface{}{"a", func() {}}) }},
+			{"formatter-simple-marshal-fails", func() { hio.Formatter{Simple: true}.Marshal(map[string]interface{}{"c": make(chan bool)}) }},
+			{"unmarshal-ok", func() { var x interface{}; hio.Unmarshal([]byte(`s3"abc"`), &x) }},
+			{"unmarshal-fails", func() { var x int; hio.Unmarshal([]byte(`s3"abc"`), &x) }},
+			{"unmarshal-truncated", func() { var x interface{}; hio.Unmarshal([]byte(`a3{1`), &x) }},
+			{"unmarshal-reader-fails", func() { var x int; hio.UnmarshalFromReader(strings.NewReader(`m1{`), &x) }},
+			{"unmarshal-panicking-target", func() { h.Try(func() { hio.Unmarshal([]byte("1"), nil) }) }},
+		}
+		for round := 0; round < 20; round++ {
+			for _, pl := range preludes {
+				pl.run()
+				encs := map[*hio.Encoder]bool{}
+				decs := map[*hio.Decoder]bool{}
+				var es []*hio.Encoder
+				var ds []*hio.Decoder
+				for i := 0; i < 6; i++ {
+					e, d := hio.GetEncoder(), hio.GetDecoder()
+					if encs[e] {
+						c.Violation("pooled-encoder-handed-out-twice:"+pl.name, fmt.Sprintf("after %q two GetEncoder calls with no FreeEncoder between them returned the same *Encoder: two goroutines would write into one buffer", pl.name), map[string]interface{}{"prelude": pl.name})
+					}
+					if decs[d] {
+						c.Violation("pooled-decoder-handed-out-twice:"+pl.name, fmt.Sprintf("after %q two GetDecoder calls returned the same *Decoder", pl.name), map[string]interface{}{"prelude": pl.name})
+					}
+					encs[e], decs[d] = true, true
+					es, ds = append(es, e), append(ds, d)
+					r.Eval(2)
+				}
+				for i := range es {
+					hio.FreeEncoder(es[i])
+					hio.FreeDecoder(ds[i])
+				}
+				r.Distinct("pool-distinct|" + pl.name)
+			}
+		}
+	})
+}
+
+// memRanges reports the memory of every byte slice (to its capacity) and string in v.
+func memRanges(v reflect.Value, seen map[uintptr]bool, visit func(p uintptr, n int, what string)) {
+	switch v.Kind() {
+	case reflect.String:
+		if v.Len() > 0 {
+			visit(uintptr(unsafe.Pointer(unsafe.StringData(v.String()))), v.Len(), "string")
+		}
+	case reflect.Slice:
+		if v.IsNil() {
+			return
+		}
+		if v.Type().Elem().Kind() == reflect.Uint8 {
+			visit(v.Pointer(), v.Cap(), fmt.Sprintf("byte slice (len %d, cap %d)", v.Len(), v.Cap()))
+			return
+		}
+		for i := 0; i < v.Len(); i++ {
+			memRanges(v.Index(i), seen, visit)
+		}
+	case reflect.Array:
+		for i := 0; i < v.Len(); i++ {
+			memRanges(v.Index(i), seen, visit)
+		}
+	case reflect.Map:
+		it := v.MapRange()
+		for it.Next() {
+			memRanges(it.Key(), seen, visit)
+			memRanges(it.Value(), seen, visit)
+		}
+	case reflect.Ptr:
+		if v.IsNil() || seen[v.Pointer()] {
+			return
+		}
+		seen[v.Pointer()] = true
+		memRanges(v.Elem(), seen, visit)
+	case reflect.Interface:
+		if !v.IsNil() {
+			memRanges(v.Elem(), seen, visit)
+		}
+	case reflect.Struct:
+		for i := 0; i < v.NumField(); i++ {
+			memRanges(v.Field(i), seen, visit)
+		}
+	}
+}
+
+// appendAll appends within capacity to every settable or addressable byte slice reachable in v.
+func appendAll(v reflect.Value, seen map[uintptr]bool) {
+	switch v.Kind() {
+	case reflect.Slice:
+		if v.IsNil() {
+			return
+		}
+		if v.Type().Elem().Kind() == reflect.Uint8 && v.CanInterface() {
+			if b, ok := v.Interface().([]byte); ok {
+				full := b[:cap(b)]
+				for i := len(b); i < len(full); i++ {
+					full[i] = 0x5A
+				}
+			}
+			return
+		}
+		for i := 0; i < v.Len(); i++ {
+			appendAll(v.Index(i), seen)
+		}
+	case reflect.Array:
+		for i := 0; i < v.Len(); i++ {
+			appendAll(v.Index(i), seen)
+		}
+	case reflect.Map:
+		it := v.MapRange()
+		for it.Next() {
+			appendAll(it.Value(), seen)
+		}
+	case reflect.Ptr:
+		if v.IsNil() || seen[v.Pointer()] {
+			return
+		}
+		seen[v.Pointer()] = true
+		appendAll(v.Elem(), seen)
+	case reflect.Interface:
+		if !v.IsNil() {
+			appendAll(v.Elem(), seen)
+		}
+	case reflect.Struct:
+		for i := 0; i < v.NumField(); i++ {
+			if v.Type().Field(i).PkgPath == "" {
+				appendAll(v.Field(i), seen)
+			}
+		}
+	}
 }
 
 type smallReader struct {
